@@ -136,6 +136,8 @@ def render_expr(e, ctx, lang):
         return '%s[%d]' % (R(e[1]), e[2])
     if t == 'paren':
         return '(%s)' % R(e[1])
+    if t == 'upper':
+        return '%s.upper()' % R(e[1]) if lang == 'py' else '%s.toUpperCase()' % R(e[1])
     if lang == 'py':
         if t == 'int_of':
             return 'int(%s)' % R(e[1])
@@ -156,11 +158,13 @@ def render_expr(e, ctx, lang):
 
 def is_neutral(e):
     """True when the expression only uses the language-neutral vocabulary."""
+    if isinstance(e, dict):
+        return all(is_neutral(v) for v in e.values())
     if not isinstance(e, list):
         return True
-    if e and isinstance(e[0], str) and e[0] in ('int_of', 'float_of', 'upper', 'pymax', 'pymin', 'pysum', 'pymaxl'):
+    if e and isinstance(e[0], str) and e[0] in ('int_of', 'float_of', 'pymax', 'pymin', 'pysum', 'pymaxl'):
         return False
-    return all(is_neutral(x) for x in e[1:])
+    return all(is_neutral(x) for x in e)
 
 
 def render_item(it, ctx, lang):
